@@ -456,6 +456,11 @@ pub fn finish(
             );
         } else {
             violations += 1;
+            if violations > 25 {
+                // still a violation (exit 1); the evidence file lists every key
+                viol_list.push(json!({"key": key, "case": f.case, "n": n}));
+                continue;
+            }
             let fname = format!(
                 "{}/replays/{}-{:016x}.json",
                 root,
@@ -469,6 +474,9 @@ pub fn finish(
             println!("  detail: {}", f.detail.replace('\n', " "));
             viol_list.push(json!({"key": key, "case": f.case, "n": n}));
         }
+    }
+    if violations > 25 {
+        println!("({} further violation keys not printed; all are listed in the evidence file)", violations - 25);
     }
     let mut machinery = res.machinery_errors.clone();
     if res.out.evals == 0 {
